@@ -220,16 +220,19 @@ inductive PathForm
   | explicitUnsupportedSuffix
   /-- no format given: it is deduced from the (matching) suffix -/
   | deduced
+  /-- no format given and the path AS GIVEN carries the matching suffix, but it is a symbolic link to a file whose own
+  name carries another suffix (the deduction is a function of the path as given, not of what it points to) -/
+  | deducedLink
   deriving DecidableEq, Repr
 
 def PathForm.all : List PathForm :=
-  [.explicitMatching, .explicitNoSuffix, .explicitOtherSuffix, .explicitUnsupportedSuffix, .deduced]
+  [.explicitMatching, .explicitNoSuffix, .explicitOtherSuffix, .explicitUnsupportedSuffix, .deduced, .deducedLink]
 
 def PathForm.idx : PathForm → Nat
   | .explicitMatching => 0 | .explicitNoSuffix => 1 | .explicitOtherSuffix => 2
-  | .explicitUnsupportedSuffix => 3 | .deduced => 4
+  | .explicitUnsupportedSuffix => 3 | .deduced => 4 | .deducedLink => 5
 
-/-- one cell of the configuration matrix: 6 × 4 × 3 × 3 × 2 × 5 = 2160 -/
+/-- one cell of the configuration matrix: 6 × 4 × 3 × 3 × 2 × 6 = 2592 -/
 structure Cell extends Config where
   form : PathForm
   deriving DecidableEq, Repr
@@ -237,7 +240,7 @@ structure Cell extends Config where
 def allCells : List Cell := allConfigs.flatMap fun b => PathForm.all.map fun p => ⟨b, p⟩
 
 /-- row of a cell in the generated table -/
-def Cell.idx (c : Cell) : Nat := c.toConfig.idx * 5 + c.form.idx
+def Cell.idx (c : Cell) : Nat := c.toConfig.idx * 6 + c.form.idx
 
 /-- the path form is a dimension of path sources / targets only; elsewhere only the first value is a cell -/
 def formApplicable (c : Cell) : Bool := c.form == .explicitMatching || c.kind == .path
@@ -264,7 +267,7 @@ def NameArg.txt : NameArg → String
 def PathForm.txt : PathForm → String
   | .explicitMatching => "explicitMatching" | .explicitNoSuffix => "explicitNoSuffix"
   | .explicitOtherSuffix => "explicitOtherSuffix" | .explicitUnsupportedSuffix => "explicitUnsupportedSuffix"
-  | .deduced => "deduced"
+  | .deduced => "deduced" | .deducedLink => "deducedLink"
 def Cls.txt : Cls → String
   | .molecule => "molecule" | .ensemble => "ensemble" | .structure => "structure" | .cdxmlFile => "cdxmlFile" | .other => "other"
 def MOp.txt : MOp → String
